@@ -83,7 +83,10 @@ type Ent struct {
 	M uint32 `json:"m"`           // unix permission bits
 	C string `json:"c,omitempty"` // content
 	T string `json:"t,omitempty"` // tar: type flag for "other"; zip: symlink | fifo | chardev | blockdev | socket
+	H string `json:"h,omitempty"` // zip: creator host byte of the entry: "" = Unix (3) | fat (0) | ntfs (11) | mac (7) | osx (19) | vfat (14)
 }
+
+var hostByte = map[string]uint16{"fat": 0, "ntfs": 11, "mac": 7, "osx": 19, "vfat": 14}
 
 type Node struct {
 	P string `json:"p"` // absolute path inside the sandbox root, or relative (setup / tree)
@@ -600,6 +603,60 @@ func round3Cases(add func(Case), next func() int) {
 		}
 	}
 
+	// backslash spellings of the hostile names (pure and mixed separators) under every creator host byte: on
+	// this platform a backslash is an ordinary character of a file name; the name that is checked must be the
+	// name that is written
+	bsl := func(nm string, variant int) string {
+		switch variant {
+		case 0:
+			return strings.ReplaceAll(nm, "/", "\\")
+		case 1:
+			return strings.Replace(nm, "/", "\\", 1)
+		default:
+			if i := strings.LastIndex(nm, "/"); i >= 0 {
+				return nm[:i] + "\\" + nm[i+1:]
+			}
+			return nm
+		}
+	}
+	hosts := []string{"", "fat", "ntfs", "mac", "osx", "vfat"}
+	bnames := append([]string{"..\\victim.txt", "sub\\..\\..\\x", "a/b\\..\\..\\..\\destx\\x", "..\\destx\\evil.txt", "\\abs\\evil.txt", "..\\..\\evil.txt", "d\\f", "..\\outside.txt"}, []string{}...)
+	seenB := map[string]bool{}
+	for _, nm := range nameCorpus {
+		if !strings.Contains(nm, "/") {
+			continue
+		}
+		for v := 0; v < 3; v++ {
+			if b := bsl(nm, v); !seenB[b] && strings.Contains(b, "\\") {
+				seenB[b] = true
+				bnames = append(bnames, b)
+			}
+		}
+	}
+	for bi, nm := range bnames {
+		for hi, h := range hosts {
+			add(Case{Stream: "bslash", Op: "unzip", Dest: "%S/dest", Cwd: "/", Umask: 0o22, Setup: setups[2],
+				Entries: []Ent{{N: nm, K: "file", M: 0o644, C: "x-" + nm, H: h}}})
+			if (bi+hi)%3 == 0 {
+				add(Case{Stream: "bslash", Op: "unzip", Dest: "dest", Cwd: "%S", Umask: 0o22, Setup: setups[1], Clear: bi%2 == 0,
+					Entries: []Ent{{N: "./", K: "dir", M: 0o755, H: h}, {N: "sub/", K: "dir", M: 0o755, H: h}, {N: nm, K: "file", M: 0o600, C: "after a root entry", H: h},
+						{N: "late.txt", K: "file", M: 0o644, C: "late", H: h}}})
+			}
+		}
+		// the same names in a tar stream (no host byte there)
+		add(Case{Stream: "bslash", Op: "untar", Dest: "%S/dest", Cwd: "/", Umask: 0o22, Setup: setups[2],
+			Entries: []Ent{{N: nm, K: "file", M: 0o644, C: "x-" + nm}}})
+	}
+	// host bytes alone: what the readers make of the modes must not matter for where things go
+	for _, h := range hosts {
+		es := []Ent{}
+		for _, e := range append(append([]Ent{}, benign...), hostile...) {
+			e.H = h
+			es = append(es, e)
+		}
+		add(Case{Stream: "bslash", Op: "unzip", Dest: "%S/dest", Cwd: "/", Umask: 0o22, Setup: setups[1], Entries: es})
+	}
+
 	// clear=true for every spelling of the destination, over an absent, a populated and a non-directory destination
 	for _, df := range destForms {
 		for si, su := range [][]Node{setups[0], setups[2], destIsFile} {
@@ -801,6 +858,9 @@ func buildZip(es []Ent, sb string) ([]byte, error) {
 	for _, e := range es {
 		h := &zip.FileHeader{Name: subst(e.N, sb), Method: zip.Deflate}
 		h.SetMode(fileMode(e.M, e.K == "dir") | zipTypeBits(e.T))
+		if hb, ok := hostByte[e.H]; ok {
+			h.CreatorVersion = hb << 8 // the writer keeps the host byte
+		}
 		w, err := zw.CreateHeader(h)
 		if err != nil {
 			return nil, err
